@@ -5,7 +5,7 @@
    arbitrary scopes, and covers error outcomes and := effects: both sides are compared as
    (outcome, scope) pairs.  ASCII case mapping; floats exact (see harness assumptions). *)
 From Coq Require Import String Ascii List Bool ZArith QArith.
-From Tally Require Import Lib.Str Expr.StrOps Expr.Date Expr.Syntax Expr.Funcs Expr.Eval C04.Proofs.
+From Tally Require Import Lib.Str Expr.StrOps Expr.Date Expr.Syntax Expr.Funcs Expr.Eval C04.Proofs C04.NameCase.
 Import ListNotations.
 Open Scope string_scope.
 
@@ -309,6 +309,80 @@ Theorem c04_strip_suffix_partial :
 Proof. exact strip_suffix_partial. Qed.
 Print Assumptions c04_strip_suffix_partial.
 
+(* ---------------- letter case of names ---------------- *)
+(* re-casing every identifier of an expression (variables, attributes, function / method names, loop
+   variables, := targets) by any map f that only changes letter case leaves (outcome, scope) unchanged *)
+Theorem c04_name_case_insensitive :
+  forall f : string -> string, (forall s, lower (f s) = lower s) ->
+  forall E e sc, eval E (recase f e) sc = eval E e sc.
+Proof. exact name_case_insensitive. Qed.
+Print Assumptions c04_name_case_insensitive.
+
+(* ---------------- comprehensions and their consumers ---------------- *)
+(* one clause `for id in iter if ifs...` whose loop variable shadows nothing and whose conditions / element
+   succeed without touching the scope: fc it = "all conditions hold for it", fe it = value of the element *)
+Definition pure_clause (E : env) (id : string) (iter : pyast) (ifs : list pyast) (elt : pyast) (sc : scope)
+           (items : list value) (fc : value -> bool) (fe : value -> value) : Prop :=
+  (exists itv, eval E iter sc = (Val itv, sc) /\ iter_items itv = ItItems items) /\
+  sget sc (lower id) = None /\
+  (forall it, List.In it items ->
+     eval_ifs (eval E) ifs (sset sc (lower id) it) = (inl (fc it), sset sc (lower id) it)) /\
+  (forall it, List.In it items -> fc it = true ->
+     eval E elt (sset sc (lower id) it) = (Val (fe it), sset sc (lower id) it)).
+
+Theorem c04_listcomp_is_filter_map :
+  forall E id iter ifs elt sc items fc fe, pure_clause E id iter ifs elt sc items fc fe ->
+    eval E (EComp ListComp elt [(EName id, iter, ifs)]) sc = (Val (VList (map fe (filter fc items))), sc).
+Proof. intros * [[itv [H1 H2]] [H3 [H4 H5]]]. eapply listcomp_is_filter_map; eauto. Qed.
+Print Assumptions c04_listcomp_is_filter_map.
+
+Theorem c04_len_spec :
+  forall E id iter ifs elt sc items fc fe, pure_clause E id iter ifs elt sc items fc fe ->
+    eval E (ECall (EName "len") [EComp ListComp elt [(EName id, iter, ifs)]] []) sc =
+    (Val (VInt (Z.of_nat (length (filter fc items)))), sc).
+Proof.
+  intros * [[itv [H1 H2]] [H3 [H4 H5]]]. erewrite len_listcomp; eauto. now rewrite map_length.
+Qed.
+Print Assumptions c04_len_spec.
+
+(* any / all / next stop pulling at the deciding element (the loop variable then stays bound to it, as in
+   the code): the value is stated *)
+Theorem c04_any_spec :
+  forall E id iter ifs elt sc items fc fe, pure_clause E id iter ifs elt sc items fc fe ->
+    fst (eval E (ECall (EName "any") [EComp GeneratorExp elt [(EName id, iter, ifs)]] []) sc) =
+    Val (VBool (existsb truthy (map fe (filter fc items)))).
+Proof. intros * [[itv [H1 H2]] [H3 [H4 H5]]]. eapply any_generator; eauto. Qed.
+Print Assumptions c04_any_spec.
+
+Theorem c04_all_spec :
+  forall E id iter ifs elt sc items fc fe, pure_clause E id iter ifs elt sc items fc fe ->
+    fst (eval E (ECall (EName "all") [EComp GeneratorExp elt [(EName id, iter, ifs)]] []) sc) =
+    Val (VBool (forallb truthy (map fe (filter fc items)))).
+Proof. intros * [[itv [H1 H2]] [H3 [H4 H5]]]. eapply all_generator; eauto. Qed.
+Print Assumptions c04_all_spec.
+
+Theorem c04_sum_spec :
+  forall E id iter ifs elt sc items fc fe, pure_clause E id iter ifs elt sc items fc fe ->
+    fst (eval E (ECall (EName "sum") [EComp GeneratorExp elt [(EName id, iter, ifs)]] []) sc) =
+    match feed step_sum (VInt 0) (map fe (filter fc items)) with SCont v | SStop v => Val v | SFail o => wrap o end /\
+    (forall zs, map fe (filter fc items) = map VInt zs ->
+       fst (eval E (ECall (EName "sum") [EComp GeneratorExp elt [(EName id, iter, ifs)]] []) sc) =
+       Val (VInt (fold_left Z.add zs 0%Z))).
+Proof.
+  intros * [[itv [H1 H2]] [H3 [H4 H5]]].
+  assert (S := sum_generator E id iter elt ifs sc itv items fc fe H1 H2 H3 H4 H5).
+  split; [exact S|]. intros zs Hz. rewrite S, Hz, feed_step_sum_ints. reflexivity.
+Qed.
+Print Assumptions c04_sum_spec.
+
+Theorem c04_next_spec :
+  forall E id iter ifs elt sc items fc fe, pure_clause E id iter ifs elt sc items fc fe ->
+  forall dflt dv, const_outcome dflt = Val dv ->
+    fst (eval E (ECall (EName "next") [EComp GeneratorExp elt [(EName id, iter, ifs)]; EConst dflt] []) sc) =
+    Val (match map fe (filter fc items) with x :: _ => x | [] => dv end).
+Proof. intros * [[itv [H1 H2]] [H3 [H4 H5]]] dflt dv Hd. eapply next_generator; eauto. Qed.
+Print Assumptions c04_next_spec.
+
 (* ---------------- non-vacuity: the laws' hypotheses are met by non-trivial cases ---------------- *)
 Definition call (f : string) (args : list pyast) : pyast := ECall (EName f) args [].
 Definition ex_uber := call "contains" [strc "uber"].
@@ -368,3 +442,43 @@ Example c04_example_transforms :
   fn_strip_suffix [VStr "STORE"; VStr ""] = Val (VStr "") /\
   fn_uppercase [VStr "Starbucks"] = Val (VStr "STARBUCKS").
 Proof. vm_compute. repeat split; reflexivity. Qed.
+
+(* the comprehension theorems apply to a query over the supplemental table of the example environment:
+   [r.item for r in orders if r.amount > 0] *)
+Definition ex_rows_list : list value :=
+  [VDict [("item", VStr "Book"); ("amount", VFloat (25 # 2))];
+   VDict [("item", VStr "uber cable"); ("amount", VFloat 30)];
+   VDict [("item", VStr ""); ("amount", VFloat (-161 # 4))]].
+Definition ex_fc (it : value) : bool :=
+  match it with VDict d => match dict_get d "amount" with Some (VFloat q) => Qltb 0 q | _ => false end | _ => false end.
+Definition ex_fe (it : value) : value :=
+  match it with VDict d => match dict_get d "item" with Some v => v | None => VNone end | _ => VNone end.
+
+Example c04_example_pure_clause :
+  pure_clause ex_env "R" (EName "orders") [ECompare (EAttribute (EName "r") "amount") [(Gt, EConst (CInt 0))]]
+              (EAttribute (EName "r") "item") [] ex_rows_list ex_fc ex_fe.
+Proof.
+  split; [exists (VList ex_rows_list); split; reflexivity|].
+  split; [reflexivity|].
+  split.
+  - intros it Hin. cbn in Hin. destruct Hin as [<-|[<-|[<-|[]]]]; vm_compute; reflexivity.
+  - intros it Hin Hc. cbn in Hin. destruct Hin as [<-|[<-|[<-|[]]]]; vm_compute; reflexivity.
+Qed.
+
+Example c04_example_comprehension_values :
+  eval ex_env (EComp ListComp (EAttribute (EName "r") "item")
+                 [(EName "R", EName "orders", [ECompare (EAttribute (EName "r") "amount") [(Gt, EConst (CInt 0))]])]) []
+  = (Val (VList [VStr "Book"; VStr "uber cable"]), []) /\
+  map ex_fe (filter ex_fc ex_rows_list) = [VStr "Book"; VStr "uber cable"] /\
+  (* a generator left early keeps its loop variable: any(...) and r *)
+  snd (eval ex_env (call "any" [EComp GeneratorExp (EConst (CBool true)) [(EName "r", EName "orders", [])]]) [])
+  = [("r", VDict [("item", VStr "Book"); ("amount", VFloat (25 # 2))])].
+Proof. vm_compute. repeat split; reflexivity. Qed.
+
+Example c04_example_name_case :
+  (forall s, lower (upper s) = lower s) /\
+  recase upper (ECompare (call "contains" [EAttribute (EName "field") "memo"; strc "ref"]) [(Eq, EName "true")])
+  = ECompare (ECall (EName "CONTAINS") [EAttribute (EName "FIELD") "MEMO"; strc "ref"] []) [(Eq, EName "TRUE")] /\
+  fst (eval ex_env (ECompare (ECall (EName "CONTAINS") [EAttribute (EName "FIELD") "MEMO"; strc "ref"] []) [(Eq, EName "TRUE")]) [])
+  = Val (VBool true).
+Proof. split; [exact lower_upper|]. vm_compute. split; reflexivity. Qed.
